@@ -16,8 +16,8 @@ from ctparse.rule import _regex
 
 TSS = [datetime(2018, 3, 7, 12, 43), datetime(2024, 2, 29, 23, 59)]
 EXPRS = ["tomorrow 8pm", "friday", "8:30", "on the 31st", "march 3rd 2021", "9-5", "friday morning", "in the evening",
-         "3 days", "monday 10:00 - 12:00", "heute abend", "12.03.2021 um 9 uhr"]
-_CAND_WORDS = ["foo", "lunch", "hm", "xyz", "bob", "meeting", "qq", "call"]
+         "3 days", "monday 10:00 - 12:00", "heute abend", "12.03.2021 um 9 uhr", "am 19.12", "friday 14", "um 8 morgens", "may/8"]
+_CAND_WORDS = ["zzzzzzzzzzzz", "foo", "lunch", "hm", "xyz", "bob", "meeting", "qq", "call"]
 with NoTracing():
     pass
 
